@@ -6,18 +6,21 @@
    (sequence-number resets), and of paramiko/packet.py: the two sequence counters, msg.seqno, the
    roll-over check, MAC verification under the inbound sequence number.
    Definitions only; proofs are in Proofs/C09_proofs.v. *)
-From PV Require Import Bytes.
+From PV Require Import Bytes C09_gen.
 Open Scope Z_scope.
 
-(* message numbers (paramiko/common.py) *)
-Definition MSG_DISCONNECT : Z := 1.
-Definition MSG_IGNORE : Z := 2.
-Definition MSG_UNIMPLEMENTED : Z := 3.
-Definition MSG_DEBUG : Z := 4.
-Definition MSG_EXT_INFO : Z := 7.
-Definition MSG_KEXINIT : Z := 20.
-Definition MSG_NEWKEYS : Z := 21.
-Definition SEQ_MOD : Z := 4294967296.   (* xffffffff + 1 *)
+(* message numbers and the sequence-number modulus: taken from Gen/C09_gen.v (regenerated from
+   paramiko/common.py on every run by gen/c09.py) and normalised to numerals at compile time *)
+Definition MSG_DISCONNECT : Z := Eval compute in g_MSG_DISCONNECT.
+Definition MSG_IGNORE : Z := Eval compute in g_MSG_IGNORE.
+Definition MSG_UNIMPLEMENTED : Z := Eval compute in g_MSG_UNIMPLEMENTED.
+Definition MSG_DEBUG : Z := Eval compute in g_MSG_DEBUG.
+Definition MSG_EXT_INFO : Z := Eval compute in g_MSG_EXT_INFO.
+Definition MSG_KEXINIT : Z := Eval compute in g_MSG_KEXINIT.
+Definition MSG_NEWKEYS : Z := Eval compute in g_MSG_NEWKEYS.
+Definition SEQ_MOD : Z := Eval compute in g_SEQ_MOD.   (* xffffffff + 1 *)
+Definition KEX_LO : Z := Eval compute in g_kex_lo.      (* run(): `(ptype >= 30) and (ptype <= 41)` *)
+Definition KEX_HI : Z := Eval compute in g_kex_hi.
 
 Inductive role := Client | Server.
 Inductive kexfam :=
@@ -111,37 +114,53 @@ Fixpoint emit (c : cfg) (st : peer) (ts : list Z) : peer * list pkt :=
 Definition activate_out_msgs (c : cfg) : list Z :=
   MSG_NEWKEYS :: (if is_server c && c_ext c then [MSG_EXT_INFO] else []).
 
+(* The engines' behaviour is read from the generated tables g_kex_start / g_kex_next (extracted from
+   the AST of kex_group1 / kex_curve25519 / kex_ecdh_nist (family 0, must agree) and kex_gex (family 1)). *)
+Definition fam (c : cfg) : Z := match c_kex c with KDH => 0 | KGEX => 1 end.
+
+Fixpoint find_start (l : list (Z * bool * list Z * list Z)) (f : Z) (srv : bool) : option (list Z * list Z) :=
+  match l with
+  | [] => None
+  | (f', s', snt, ex) :: r => if (f' =? f) && Bool.eqb s' srv then Some (snt, ex) else find_start r f srv
+  end.
+
 (* kex_engine.start_kex(): (messages sent, _expect_packet) *)
 Definition kex_start (c : cfg) : list Z * list Z :=
-  match c_role c, c_kex c with
-  | Server, KDH => ([], [30])
-  | Server, KGEX => ([], [34; 30])
-  | Client, KDH => ([30], [31])
-  | Client, KGEX => ([34], [31])
+  match find_start g_kex_start (fam c) (is_server c) with
+  | Some x => x
+  | None => ([], [])
   end.
 
-(* kex_engine.parse_next(ptype, m): None = raises SSHException; Some (sent, expected, activated) *)
+Definition role_ok (role : Z) (srv : bool) : bool :=
+  (role =? 0) || (if srv then role =? 1 else role =? 2).
+
+Fixpoint find_next (l : list (Z * Z * Z * list Z * list Z * bool)) (f : Z) (srv : bool) (t : Z)
+  : option (list Z * list Z * bool) :=
+  match l with
+  | [] => None
+  | (f', role, t', snt, ex, act) :: r =>
+      if (f' =? f) && (t' =? t) && role_ok role srv then Some (snt, ex, act) else find_next r f srv t
+  end.
+
+(* kex_engine.parse_next(ptype, m): None = raises SSHException; Some (sent, expected, activated);
+   a handler that calls _activate_outbound sends NEWKEYS (+ EXT_INFO) after its own message and leaves
+   _expect_packet(MSG_NEWKEYS) (g_activate_expect) *)
 Definition kex_next (c : cfg) (t : Z) (ok : bool) : option (list Z * list Z * bool) :=
   if negb ok then None else
-  match c_kex c with
-  | KDH => match c_role c with
-           | Server => if t =? 30 then Some (31 :: activate_out_msgs c, [MSG_NEWKEYS], true) else None
-           | Client => if t =? 31 then Some (activate_out_msgs c, [MSG_NEWKEYS], true) else None
-           end
-  | KGEX => if (t =? 34) || (t =? 30) then Some ([31], [32], false)
-            else if t =? 31 then Some ([32], [33], false)
-            else if t =? 32 then Some (33 :: activate_out_msgs c, [MSG_NEWKEYS], true)
-            else if t =? 33 then Some (activate_out_msgs c, [MSG_NEWKEYS], true)
-            else None
+  match find_next g_kex_next (fam c) (is_server c) t with
+  | None => None
+  | Some (snt, ex, act) =>
+      Some (if act then (snt ++ activate_out_msgs c, g_activate_expect, true) else (snt, ex, false))
   end.
 
-(* the message types any kex engine ever expects (and KEXINIT / NEWKEYS) *)
-Definition kexmsg (t : Z) : bool :=
-  (t =? 20) || (t =? 21) || (t =? 30) || (t =? 31) || (t =? 32) || (t =? 33) || (t =? 34).
+(* the message types that are ever passed to _expect_packet anywhere in paramiko (generated) *)
+Definition kexmsg (t : Z) : bool := mem t g_expect_universe.
 
 (* ---- handlers ------------------------------------------------------------------------------ *)
 (* _enforce_strict_kex *)
 Definition enforce (st : peer) : bool := agreed st && negb (kdone st).
+(* ... called first thing in the run-loop branches listed in g_enforce_sites (generated) *)
+Definition enforce_at (t : Z) (st : peer) : bool := mem t g_enforce_sites && enforce st.
 
 (* _negotiate_keys + _parse_kex_init + kex_engine.start_kex *)
 Definition negotiate (c : cfg) (st : peer) (p : pkt) (seqno : Z) : outcome * peer * list Z :=
@@ -173,14 +192,14 @@ Definition handlers (c : cfg) (st : peer) (p : pkt) (seqno : Z) : outcome * peer
 (* the body of the `while self.active` loop after read_message returned (ptype, m) *)
 Definition handle (c : cfg) (st : peer) (p : pkt) (seqno : Z) : outcome * peer * list Z :=
   let t := p_type p in
-  if t =? MSG_IGNORE then ((if enforce st then AbortMOE else Continue), st, [])
+  if t =? MSG_IGNORE then ((if enforce_at MSG_IGNORE st then AbortMOE else Continue), st, [])
   else if t =? MSG_DISCONNECT then (Closed, st, [])
-  else if t =? MSG_DEBUG then ((if enforce st then AbortMOE else Continue), st, [])
+  else if t =? MSG_DEBUG then ((if enforce_at MSG_DEBUG st then AbortMOE else Continue), st, [])
   else if is_nil (expected st) then handlers c st p seqno
   else if negb (mem t (expected st)) then ((if agreed st then AbortMOE else AbortSSH), st, [])
   else
     let st1 := set_expected st [] in
-    if (30 <=? t) && (t <=? 41) then
+    if (KEX_LO <=? t) && (t <=? KEX_HI) then
       match kex_next c t (p_ok p) with
       | None => (AbortSSH, st1, [])
       | Some (sends, ex, act) =>
@@ -239,7 +258,7 @@ End WithMac.
 
 (* state when run() enters its loop: _send_kex_init() done, _expect_packet(MSG_KEXINIT) *)
 Definition peer0 : peer :=
-  {| agreed := false; kdone := false; expected := [MSG_KEXINIT]; kexinit_sent := true; k_set := false;
+  {| agreed := false; kdone := false; expected := g_run_expect; kexinit_sent := true; k_set := false;
      seq_in := 0; ep_in := 0; g_in := true; nrecv := 0; seq_out := 0; ep_out := 0; g_out := true |}.
 Definition start (c : cfg) : peer * list pkt := emit c peer0 [MSG_KEXINIT].
 
